@@ -554,3 +554,129 @@ def copy_walk(fx, exe, out_path, seed, records, profile=None):
     crash = ex.dead
     ex.close()
     return ex.records, crash
+
+
+HOOKABLE = {"entryGuard", "exitGuard", "preUpdate", "update", "postUpdate", "preReact", "react", "postReact", "query",
+            "enter", "exit", "reenter", "planSucceeded", "planFailed"}
+
+
+def ops_for(walker, me, tier):
+    """small op menu per callback kind for the systematic exploration"""
+    base = me[2:] if me.startswith("i_") else me
+    fl = walker.fl
+    leaves = [s for s in range(2, fl.n + 1) if fl.st(s)["kind"] == "S"]
+    regions = [s for s in range(2, fl.n + 1) if fl.st(s)["kind"] != "S"]
+    dests = sorted(set([leaves[0], leaves[-1]] + regions[:1] + ([leaves[len(leaves) // 2]] if tier == "thorough" else [])))
+    kinds = ["change", "restart"] if tier == "quick" else ["change", "restart", "resume", "select"]
+    reqs = ["req:%s:%d:%d" % (k, d, 1 if walker.profile["payload"] and i % 2 else 0) for i, (k, d) in enumerate((k, d) for k in kinds for d in dests)]
+    if base in ("entryGuard", "exitGuard"):
+        return ["cancel"] + reqs + ["req:schedule:%d:0" % leaves[-1]]
+    if base in ("preUpdate", "update", "postUpdate"):
+        return reqs + (["succeed:SELF", "fail:SELF"] if walker.profile["plans"] else [])
+    if base in ("preReact", "react", "postReact"):
+        return ["consume"] + reqs[:2]
+    if base == "query":
+        return ["consume"]
+    if base in ("planSucceeded", "planFailed"):
+        return reqs[:1] + ["succeed:SELF"]
+    if base in ("enter", "exit", "reenter") and walker.profile["plans"]:
+        r = fl.st(regions[0])["region"] if regions else 1
+        head = fl.region_head(r)
+        inside = fl.subtree(head)
+        return ["plan_append:%d:%d:%d:change:0" % (r, inside[1] if len(inside) > 1 else inside[0], inside[-1])]
+    return []
+
+
+def exhaustive_walk(fx, exe, out_dir, tier, max_states, seed=1, profile=None):
+    """systematic exploration driven by what the implementation does: breadth-first over observed persistent states;
+    in every state every base call of the menu, and for every callback that call really invokes, every op of a small
+    menu scripted into that callback (so every scripted hook fires).  Variants run on a copy of the base instance."""
+    rnd = random.Random(seed)
+    w = Walker(fx, rnd, profile)
+    fl, manual = w.fl, w.cfg["manual"]
+    files, total, crash = [], 0, None
+
+    def key(post):
+        return json.dumps([post["act"], post["res"], post["q"], post["plans"], post["succ"], post["fail"]])
+
+    def labels(post):
+        ls = ["update", "react", "query", "reset"]
+        kinds = w.kinds if tier == "thorough" else [k for k in w.kinds if k in ("change", "restart", "resume", "utilize")]
+        if len(post["q"]) < fl.cc:
+            for k in kinds:
+                for d in range(1, fl.n + 1):
+                    ls.append("imm %s %d 0" % (k, d))
+        return ls
+
+    seen, frontier = {}, []
+    start = (["new", "enter"] if manual else ["new"])
+    frontier.append(start)
+    si = 0
+    while frontier and si < max_states and crash is None:
+        path = frontier.pop(0)
+        f = os.path.join(out_dir, "%s-exh-%d.ndjson" % (fx["name"], si))
+        ex = Exec(exe, f)
+        ex.send("slot 0")
+        rec = None
+        for cmd in path:
+            rec = ex.call(cmd) if not cmd.startswith(("hook", "sel", "rank", "util", "rng")) else (ex.send(cmd) or rec)
+        if rec is None or ex.dead:
+            crash = ex.dead
+            ex.close()
+            files.append(f)
+            break
+        k0 = key(rec["post"])
+        if k0 in seen:
+            ex.close()
+            os.remove(f)
+            try:
+                os.remove(f + ".cmds")
+            except OSError:
+                pass
+            continue
+        seen[k0] = path
+        si += 1
+
+        def variant(lines, cmd):
+            ex.send("slot 1")
+            c = ex.call("copy 0")
+            if c is None:
+                return None
+            for ln in lines:
+                ex.send(ln)
+            r = ex.call(cmd)
+            if r is None:
+                return None
+            ex.call("del")
+            ex.send("slot 0")
+            return r
+
+        for lab in labels(rec["post"]):
+            r0 = variant([], lab)
+            if r0 is None:
+                break
+            if key(r0["post"]) not in seen and r0["post"]["on"]:
+                frontier.append(path + [lab])
+            fired = []
+            for e in r0["ev"]:
+                if (e[0], e[1]) not in fired and (e[1][2:] if e[1].startswith("i_") else e[1]) in HOOKABLE:
+                    fired.append((e[0], e[1]))
+            for (s, me) in fired:
+                for op in ops_for(w, me, tier):
+                    hook = "hook %d %s 1 %s" % (s, me, op.replace("SELF", str(s)))
+                    r = variant([hook], lab)
+                    if r is None:
+                        break
+                    if key(r["post"]) not in seen and r["post"]["on"] and len(frontier) < 4 * max_states:
+                        frontier.append(path + [hook, lab])
+                if ex.dead:
+                    break
+            if ex.dead:
+                break
+        if ex.dead:
+            crash = ex.dead
+        ex.call("del")
+        ex.close()
+        total += ex.records
+        files.append(f)
+    return files, total, crash
